@@ -314,11 +314,26 @@ def _resolve_undecided(prop, tier, fn, level, ctx0):
                         rel.append(k_)
     except Exception:
         pass
+    deep = list(rel)      # … and the helpers those helpers call (`main → data_text → read_stdin`: the construct may sit two calls down): one more trial, last
+    try:
+        for f in ctx0._facts.values():
+            cg, _ = f.callgraph()
+            i = 0
+            while i < len(deep) and len(deep) < 8:
+                for c in sorted(cg.get(deep[i], ())):
+                    if c in cands and c not in deep:
+                        deep.append(c)
+                i += 1
+    except Exception:
+        deep = list(rel)
     und_clauses = {u["clause"] for u in ctx0.undecided}
     t0 = time.time()
     trials = [frozenset([h]) for h in rel[:6]]
     if len(rel) > 1:
         trials.append(frozenset(rel[:6]))
+    if len(deep) > len(rel) and frozenset(deep[:8]) not in trials:
+        trials.append(frozenset(deep[:8]))
+    first = shown = None      # the first view that decides more / that shows a violation: adopted unless a later view decides everything; a view that shows a violation goes before one that merely leaves less unread
     for trial in trials:
         if time.time() - t0 > float(os.environ.get("JL_INLINE_BUDGET", "240")):
             break
@@ -327,12 +342,14 @@ def _resolve_undecided(prop, tier, fn, level, ctx0):
             continue
         if not c.viol and len(c.undecided) < len(ctx0.undecided):
             c.notes.append("decided on a behaviour-preserving view of the program (private helper functions inlined at their call sites: %s); the program as written left %d clause instance(s) unread" % (", ".join(c.inline_set), len(ctx0.undecided)))
-            return c
-        if c.viol and any(v["clause"] in und_clauses for v in c.viol):
+            if not c.undecided:
+                return c          # everything decided, nothing violated: a view that inlines less and leaves something unread (or reads it as a violation for want of the other helper) does not count against it
+            first = first or c
+        elif c.viol and any(v["clause"] in und_clauses for v in c.viol):
             c.viol = [v for v in c.viol if v["clause"] in und_clauses]
             c.notes.append("reported on the view of the program with %s inlined at their call sites: the program as written left these clause instances unread, the view shows the construct" % ", ".join(c.inline_set))
-            return c
-    return None
+            shown = shown or c
+    return shown or first
 
 
 def _helper_views(prop, tier, fn, level, ctx0):
